@@ -2,20 +2,26 @@
 // simulator build.  It is masa_core.cpp of the tree under test, verbatim, followed by a function that runs
 // the real registry destructor and re-creates the registry in place.  That is possible without a hook in
 // /repo because the anonymous-namespace globals are visible inside their own translation unit.
-// If the identifiers below are renamed upstream this file stops compiling and the check exits 2 (harness
-// fault), never 1.
+// If MasterMS / masa_master<Scalar>() are renamed upstream this file stops compiling and the check exits 2
+// (harness fault), never 1.
 #include "masa_core.cpp"
 #include "seams.h"
 #include <new>
 
 namespace simseam {
+// The registries are reached through the library's own accessor masa_master<Scalar>() (anonymous namespace of this
+// translation unit), so the seam also survives a refactoring that turns the two globals into function-local statics.
+template <typename Scalar>
+static void reset_one() {
+  MasterMS<Scalar>& m = masa_master<Scalar>();
+  m.~MasterMS<Scalar>();
+  new (&m) MasterMS<Scalar>();
+}
 void reset_registries() {
   LibDomain d;  // frees of the owned objects are library frees
-  masa_master_double.~MasterMS<double>();
-  new (&masa_master_double) MasterMS<double>();
-  masa_master_longdouble.~MasterMS<long double>();
-  new (&masa_master_longdouble) MasterMS<long double>();
+  reset_one<double>();
+  reset_one<long double>();
 }
-unsigned registry_size_double() { return masa_master_double.size(); }
-unsigned registry_size_longdouble() { return masa_master_longdouble.size(); }
+unsigned registry_size_double() { return masa_master<double>().size(); }
+unsigned registry_size_longdouble() { return masa_master<long double>().size(); }
 }  // namespace simseam
